@@ -1,4 +1,125 @@
 import PharmpyProofs.C17.Lemmas
+/-
+  C17 — Workflows execute as their task graph specifies.  Property theorems only.
+-/
 namespace Pharmpy.C17
-theorem placeholder : True := trivial
+open DiGraph
+
+/-! ## The abstract scheduler: any admissible firing order gives the reference value
+
+  `TaskGraph κ V` is ANY assignment of dependency lists and functions to keys
+  (any size, cyclic or not); a firing sequence is admissible when `runSeq`
+  returns `some`: every key fires at most once and only when all the keys it
+  mentions have values. -/
+
+section
+variable {κ V : Type} [DecidableEq κ]
+
+/-- Every value produced by an admissible firing sequence is the reference
+    (recursive, schedule-free) value of that key. -/
+theorem schedule_sound (tg : TaskGraph κ V) (s : List κ) (e : Env κ V) (k : κ) (v : V)
+    (hrun : runSeq tg Env.empty s = some e) (hk : e k = some v) :
+    den tg s.length k = some v := by
+  have h0 : Sound tg (Env.empty : Env κ V) 0 := by intro k v h; simp [Env.empty] at h
+  have := runSeq_sound s Env.empty e 0 h0 hrun k v hk
+  simpa using this
+
+/-- **schedule_independent**: two admissible firing sequences of the same
+    graph — whatever their lengths and orders — agree on every key both of
+    them fire; in particular on `'results'`. -/
+theorem schedule_independent (tg : TaskGraph κ V) (s₁ s₂ : List κ) (e₁ e₂ : Env κ V) (k : κ) (v₁ v₂ : V)
+    (h₁ : runSeq tg Env.empty s₁ = some e₁) (h₂ : runSeq tg Env.empty s₂ = some e₂)
+    (hk₁ : e₁ k = some v₁) (hk₂ : e₂ k = some v₂) : v₁ = v₂ := by
+  have a := den_mono tg (Nat.le_max_left s₁.length s₂.length) k v₁ (schedule_sound tg s₁ e₁ k v₁ h₁ hk₁)
+  have b := den_mono tg (Nat.le_max_right s₁.length s₂.length) k v₂ (schedule_sound tg s₂ e₂ k v₂ h₂ hk₂)
+  rw [a] at b
+  exact Option.some.inj b
+
+/-- Every task fires exactly once: an admissible sequence has no repetition and
+    the keys that end up with a value are exactly the fired ones. -/
+theorem fires_exactly_once (tg : TaskGraph κ V) (s : List κ) (e : Env κ V)
+    (hrun : runSeq tg Env.empty s = some e) :
+    s.Nodup ∧ ∀ k, (e k).isSome ↔ k ∈ s := by
+  obtain ⟨hnd, _, hiff⟩ := runSeq_fired s Env.empty e hrun
+  exact ⟨hnd, fun k => by simpa [Env.empty] using hiff k⟩
+
+/-- … and only after all of its predecessors (all keys it mentions). -/
+theorem fires_after_predecessors (tg : TaskGraph κ V) (p q : List κ) (k : κ) (e : Env κ V)
+    (hrun : runSeq tg Env.empty (p ++ k :: q) = some e) :
+    ∀ d ∈ tg.deps k, d ∈ p := by
+  rw [runSeq_append] at hrun
+  cases hp : runSeq tg Env.empty p with
+  | none => simp [hp] at hrun
+  | some ep =>
+    simp only [hp, Option.bind, runSeq] at hrun
+    cases hf : fire tg ep k with
+    | none => simp [hf] at hrun
+    | some e1 =>
+      obtain ⟨_, vs, hl, _⟩ := fire_eq_some hf
+      intro d hd
+      obtain ⟨v, hv⟩ := lookupAll_eq_some hl d hd
+      have := (fires_exactly_once tg p ep hp).2 d
+      exact this.mp (by simp [hv])
+
+/-- The value a task fires with is its function applied to the values of the
+    keys it mentions, in the listed order, as they are in the final state. -/
+theorem fired_value (tg : TaskGraph κ V) (s : List κ) (e : Env κ V) (k : κ) (v : V)
+    (hrun : runSeq tg Env.empty s = some e) (hk : e k = some v) :
+    ∃ vs, lookupAll e (tg.deps k) = some vs ∧ v = tg.fn k vs := by
+  have hden := schedule_sound tg s e k v hrun hk
+  -- the reference value unfolds one step; its arguments are themselves reference values
+  obtain ⟨hnd, hiff⟩ := fires_exactly_once tg s e hrun
+  have hmem : k ∈ s := (hiff k).mp (by simp [hk])
+  obtain ⟨p, q, rfl⟩ := List.append_of_mem hmem
+  have hrun' := hrun
+  rw [runSeq_append] at hrun'
+  cases hp : runSeq tg Env.empty p with
+  | none => simp [hp] at hrun'
+  | some ep =>
+    simp only [hp, Option.bind, runSeq] at hrun'
+    cases hf : fire tg ep k with
+    | none => simp [hf] at hrun'
+    | some e1 =>
+      simp only [hf] at hrun'
+      obtain ⟨_, vs, hl, he1⟩ := fire_eq_some hf
+      -- values never change once set: ep ≤ e
+      have hle : ∀ x w, ep x = some w → e x = some w := by
+        intro x w hx
+        have hx1 : e1 x = some w := by
+          subst he1; unfold Env.set
+          by_cases hxk : x = k
+          · subst hxk
+            obtain ⟨hk0, _⟩ := fire_eq_some hf
+            rw [hk0] at hx; cases hx
+          · simp [hxk, hx]
+        exact runSeq_keeps q e1 e hrun' x w hx1
+      have hkv : e k = some (tg.fn k vs) := by
+        apply runSeq_keeps q e1 e hrun'
+        subst he1; simp [Env.set]
+      rw [hk] at hkv
+      exact ⟨vs, lookupAll_mono hle hl, Option.some.inj hkv⟩
+
+/-- A sequence in which every key comes after the keys it mentions, without
+    repetition, is admissible — so for a DAG (which has such an order of ALL
+    its keys) sequential evaluation in topological order is one of the
+    schedules, and by `schedule_independent` every other schedule agrees with it. -/
+theorem topological_order_admissible (tg : TaskGraph κ V) (s : List κ) (hnd : s.Nodup)
+    (htopo : ∀ p k q, s = p ++ k :: q → ∀ d ∈ tg.deps k, d ∈ p) :
+    ∃ e, runSeq tg Env.empty s = some e ∧ ∀ k ∈ s, (e k).isSome := by
+  obtain ⟨e, he⟩ := runSeq_topo tg s Env.empty hnd (by intro k _; rfl)
+    (by intro p k q h d hd; exact Or.inr (htopo p k q h d hd))
+  refine ⟨e, he, ?_⟩
+  intro k hk
+  exact ((fires_exactly_once tg s e he).2 k).mpr hk
+
+/-- `evalAlong` (the sequential evaluator used by `topoEval`) is itself an
+    admissible schedule, hence agrees with every other schedule. -/
+theorem topoEval_agrees (tg : TaskGraph κ V) (order s : List κ) (e : Env κ V) (k : κ) (v w : V)
+    (hrun : runSeq tg Env.empty s = some e) (hk : e k = some v)
+    (hw : evalAlong tg Env.empty order k = some w) : v = w := by
+  obtain ⟨s', _, hs'⟩ := evalAlong_schedule tg order Env.empty
+  exact schedule_independent tg s s' e _ k v w hrun hs' hk hw
+
+end
+
 end Pharmpy.C17
